@@ -2,7 +2,9 @@
 (* Scenario generator for C08: the submissions replayed on the real submitters.                 *)
 (*  Mode "base": every assignment of the seven outcomes of the property's quantifier            *)
 (*     (Submitter!Outcomes, as canonical node descriptions per kind) to the configured nodes,   *)
-(*     enumerated exhaustively by TLC (initial states).                                         *)
+(*     enumerated exhaustively by TLC (initial states).  Scen_Submitter_serial.cfg restricts    *)
+(*     the outcomes to the prompt ones and sets concurrency 1 < number of nodes: then the       *)
+(*     property still promises delivery to every node (nobody is slow).                         *)
 (*  Mode "classify": one node, every client x every reply shape that is meaningful for the     *)
 (*     kind (the whole table of the classifier Tolerated), enumerated exhaustively.             *)
 (*  Mode "sim":  kind, concurrency, payload size and number of nodes are chosen in the initial  *)
@@ -11,7 +13,8 @@
 (* Only the configuration variables of Submitter matter here; the others are held constant.     *)
 EXTENDS Submitter, Json
 
-CONSTANTS Mode, Subs, SimCounts
+CONSTANTS Mode, Subs, SimCounts,
+          BaseOutcomes   \* mode "base": the outcomes assigned to the nodes (a subset of Outcomes)
 VARIABLES sub, want
 svars == <<vars, sub, want>>
 
@@ -36,7 +39,7 @@ SInit ==
             THEN /\ conc = 1
                  /\ nodes \in [1..1 -> {Canon(kind, o) : o \in ImmediateOutcomes}]
             ELSE /\ conc \in ConcSet
-                 /\ \E k \in NodeCounts : nodes \in [1..k -> CanonNodes(kind)]
+                 /\ \E k \in NodeCounts : nodes \in [1..k -> {Canon(kind, o) : o \in BaseOutcomes}]
        ELSE IF Mode = "classify"
        THEN /\ conc \in ConcSet
             /\ nodes \in {<<Node(c, "error", r)>> : c \in Clients, r \in ReasonsOf(kind)}
